@@ -102,4 +102,231 @@ theorem getHosts_tie (s : Sess) : Session_GetHosts s = (s, s.hosts.map (·.2.id)
     rw [this]; rfl
   · intro st a; rfl
 
+/-! ### 3, 4: onlineTransition -/
+
+/-- the host-side effect of one iteration of the sibling loop -/
+def sibStep (ip : IP) (s : Sess) (v : Nat) : Sess :=
+  if ((H s v).ip.is4 && (H s v).ip != ip) && (H s v).online then
+    updHost s v (fun x => { x with online := false, dirty := true }) else s
+
+theorem sibStep_ids (ip : IP) (s : Sess) (v : Nat) :
+    (sibStep ip s v).hosts.map (·.2.id) = s.hosts.map (·.2.id) := by
+  unfold sibStep
+  split
+  · unfold updHost
+    simp only [List.map_map]
+    apply List.map_congr_left
+    intro p _
+    by_cases hp : p.2.id = v <;> simp [hp]
+  · rfl
+
+theorem markSiblings_sibStep {s : Sess} (hn : (s.hosts.map (·.2.id)).Nodup) (ip : IP) (v : Nat) (l : List Nat) :
+    markSiblings (sibStep ip s v) l ip = markSiblings s (v :: l) ip := by
+  unfold sibStep
+  split
+  next hc =>
+    unfold markSiblings updHost
+    simp only [List.map_map]
+    congr 1
+    apply List.map_congr_left
+    intro p hp
+    by_cases hv : p.2.id = v
+    · have hH : H s v = p.2 := by rw [← hv]; exact H_of_some (hostById_of_mem hn hp)
+      rw [hH] at hc
+      simp only [Bool.and_eq_true, bne_iff_ne, ne_eq] at hc
+      simp [hv, hc.1.1, hc.1.2, hc.2]
+    · have : ¬ v = p.2.id := fun h => hv h.symm
+      simp [hv, List.mem_cons]
+  next hc =>
+    unfold markSiblings
+    congr 1
+    apply List.map_congr_left
+    intro p hp
+    by_cases hv : p.2.id = v
+    · have hH : H s v = p.2 := by rw [← hv]; exact H_of_some (hostById_of_mem hn hp)
+      rw [hH] at hc
+      simp only [Bool.and_eq_true, bne_iff_ne, ne_eq, not_and, Bool.not_eq_true] at hc
+      by_cases h1 : p.2.ip.is4 = true
+      · by_cases h2 : p.2.ip = ip
+        · simp [h2]
+        · have := hc ⟨h1, h2⟩
+          simp [this]
+      · simp [h1]
+    · simp [hv, List.mem_cons]
+
+theorem foldl_sibStep (ip : IP) : ∀ (l : List Nat) (s : Sess), (s.hosts.map (·.2.id)).Nodup →
+    l.foldl (sibStep ip) s = markSiblings s l ip
+  | [], s, _ => by
+    unfold markSiblings
+    simp
+  | v :: l, s, hn => by
+    rw [List.foldl_cons, foldl_sibStep ip l _ (by rw [sibStep_ids]; exact hn), markSiblings_sibStep hn]
+
+theorem updHost_updHost (s : Sess) (v : Nat) (f g : HostRec → HostRec) (hf : ∀ h, (f h).id = h.id) :
+    updHost (updHost s v f) v g = updHost s v (fun x => g (f x)) := by
+  unfold updHost
+  simp only [List.map_map]
+  congr 1
+  apply List.map_congr_left
+  intro p _
+  by_cases hp : p.2.id = v <;> simp [hp, hf]
+
+theorem updMac_same {s : Sess} (hn : (s.macs.map (·.id)).Nodup) (e : Nat) (f : MacRec → MacRec)
+    (hf : ∀ m, macById s e = some m → f m = m) : updMac s e f = s := by
+  unfold updMac
+  have : s.macs.map (fun m => if m.id = e then f m else m) = s.macs := by
+    conv => rhs; rw [← List.map_id s.macs]
+    apply List.map_congr_left
+    intro m hm
+    by_cases he : m.id = e
+    · simp only [he, if_true, id]
+      exact hf m (he ▸ macById_of_mem hn hm)
+    · simp [he]
+  rw [this]
+
+theorem updMac_ids (s : Sess) (e : Nat) (f : MacRec → MacRec) (hf : ∀ m, (f m).id = m.id) :
+    (updMac s e f).macs.map (·.id) = s.macs.map (·.id) := by
+  unfold updMac
+  simp only [List.map_map]
+  apply List.map_congr_left
+  intro m _
+  by_cases he : m.id = e <;> simp [he, hf]
+
+theorem updHost_ids (s : Sess) (v : Nat) (f : HostRec → HostRec) (hf : ∀ h, (f h).id = h.id) :
+    (updHost s v f).hosts.map (·.2.id) = s.hosts.map (·.2.id) := by
+  unfold updHost
+  simp only [List.map_map]
+  apply List.map_congr_left
+  intro p _
+  by_cases hp : p.2.id = v <;> simp [hp, hf]
+
+theorem macById_updMac_self {s : Sess} {e : Nat} {m : MacRec} (f : MacRec → MacRec)
+    (hm : macById s e = some m) (hf : ∀ m, (f m).id = m.id) : macById (updMac s e f) e = some (f m) := by
+  rw [macById_updMac _ _ _ hf, hm]; simp [(macById_some hm).2]
+
+theorem updHost_off_dirty (s : Sess) (v : Nat) :
+    updHost (updHost s v (fun x => { x with online := false })) v (fun x => { x with dirty := true }) =
+      updHost s v (fun x => { x with online := false, dirty := true }) :=
+  updHost_updHost s v (fun x => { x with online := false }) (fun x => { x with dirty := true }) (fun _ => rfl)
+
+theorem updHost_on_dirty (s : Sess) (v : Nat) :
+    updHost (updHost s v (fun x => { x with online := true })) v (fun x => { x with dirty := true }) =
+      updHost s v (fun x => { x with online := true, dirty := true }) :=
+  updHost_updHost s v (fun x => { x with online := true }) (fun x => { x with dirty := true }) (fun _ => rfl)
+
+theorem sib_body (ip : IP) (s : Sess) (v : Nat) :
+    (if ((H s v).ip.is4 && (H s v).ip != ip) = true then
+      if (H s v).online = true then
+        Ctl.next (updHost (updHost s v (fun x => { x with online := false })) v (fun x => { x with dirty := true }))
+      else Ctl.next s
+    else Ctl.next s : Ctl Sess Sess) = Ctl.next (sibStep ip s v) := by
+  unfold sibStep
+  rw [updHost_off_dirty]
+  by_cases h1 : ((H s v).ip.is4 && (H s v).ip != ip) = true
+  · by_cases h2 : (H s v).online = true
+    · simp only [h1, h2, if_true, Bool.and_self]
+    · simp [h1, h2]
+  · simp [h1]
+
+theorem setGua_eq {s : Sess} (hn : (s.macs.map (·.id)).Nodup) {e : Nat} {m : MacRec}
+    (hm : macById s e = some m) (c : Bool) (ip : IP) :
+    (if (c && ip != (M s e).ip6gua) = true then updMac s e (fun x => { x with ip6gua := ip }) else s) =
+      (if c = true then updMac s e (fun x => { x with ip6gua := ip }) else s) := by
+  rw [M_of_some hm]
+  cases c
+  · simp
+  · by_cases hq : ip = m.ip6gua
+    · have : updMac s e (fun x => { x with ip6gua := ip }) = s := by
+        apply updMac_same hn
+        intro m' hm'
+        rw [hm] at hm'
+        cases hm'
+        rw [hq]
+      simp [this]
+    · simp [hq]
+
+theorem setLla_eq {s : Sess} (hn : (s.macs.map (·.id)).Nodup) {e : Nat} {m : MacRec}
+    (hm : macById s e = some m) (c : Bool) (ip : IP) :
+    (if (c && ip != (M s e).ip6lla) = true then updMac s e (fun x => { x with ip6lla := ip }) else s) =
+      (if c = true then updMac s e (fun x => { x with ip6lla := ip }) else s) := by
+  rw [M_of_some hm]
+  cases c
+  · simp
+  · by_cases hq : ip = m.ip6lla
+    · have : updMac s e (fun x => { x with ip6lla := ip }) = s := by
+        apply updMac_same hn
+        intro m' hm'
+        rw [hm] at hm'
+        cases hm'
+        rw [hq]
+      simp [this]
+    · simp [hq]
+
+theorem onlineTransition_tie {s : Sess} (hi : Inv s) (hid : Nat) :
+    Session_onlineTransition s hid = onlineTransition s hid := by
+  unfold Session_onlineTransition onlineTransition
+  cases e : hostById s hid with
+  | none => rfl
+  | some h =>
+    obtain ⟨k, hk, hidEq⟩ := hostById_some e
+    obtain ⟨m, hm, hme, -, -⟩ := hi.hostEntry _ hk
+    have hmb : macById s h.entry = some m := hme ▸ macById_of_mem hi.midNodup hm
+    simp only [H_of_some e]
+    by_cases ho : h.online = true
+    · simp [ho]
+    · simp only [ho, if_false, Bool.false_eq_true]
+      rw [updHost_on_dirty]
+      have hm1 := macById_updMac_self (fun x => { x with online := true }) hmb (fun _ => rfl)
+      have hn1 : ((updMac s h.entry (fun x => { x with online := true })).macs.map (·.id)).Nodup := by
+        rw [updMac_ids]
+        · exact hi.midNodup
+        · intro _; rfl
+      have hh1 : ((updMac s h.entry (fun x => { x with online := true })).hosts.map (·.2.id)).Nodup :=
+        hi.hidNodup
+      generalize updMac s h.entry (fun x => { x with online := true }) = s1 at hm1 hn1 hh1 ⊢
+      have hm2 : macById (updHost s1 hid (fun x => { x with online := true, dirty := true })) h.entry = _ := hm1
+      have hn2 : ((updHost s1 hid (fun x => { x with online := true, dirty := true })).macs.map (·.id)).Nodup := hn1
+      have hh2 : ((updHost s1 hid (fun x => { x with online := true, dirty := true })).hosts.map (·.2.id)).Nodup := by
+        rw [updHost_ids]
+        · exact hh1
+        · intro _; rfl
+      generalize updHost s1 hid (fun x => { x with online := true, dirty := true }) = s2 at hm2 hn2 hh2 ⊢
+      by_cases h4 : h.ip.is4 = true
+      · simp only [h4, if_true, M_of_some hm2, hm2]
+        by_cases hne : h.ip = m.ip4
+        · simp [hne]
+        · have hb : (h.ip != m.ip4) = true := by simpa using hne
+          simp only [hb, if_true, ne_eq, hne, not_false_eq_true]
+          have hm3 := macById_updMac_self (fun x => { x with ip4 := h.ip }) hm2 (fun _ => rfl)
+          rw [M_of_some hm3]
+          simp only [sib_body]
+          rw [forRange_next (sibStep h.ip) _ _ (fun _ _ => rfl)]
+          exact foldl_sibStep h.ip _ _ hh2
+      · simp only [h4, if_false, Bool.false_eq_true]
+        by_cases hA : (h.ip.isGlobalUnicast && h.ip != (M s2 h.entry).ip6gua) = true
+        · have hg : h.ip.isGlobalUnicast = true := by
+            simp only [Bool.and_eq_true] at hA; exact hA.1
+          rw [if_pos hA]
+          simp only [hg, if_true]
+          have hm4 := macById_updMac_self (fun x => { x with ip6gua := h.ip }) hm2 (fun _ => rfl)
+          have hn4 : ((updMac s2 h.entry (fun x => { x with ip6gua := h.ip })).macs.map (·.id)).Nodup := by
+            rw [updMac_ids]
+            · exact hn2
+            · intro _; rfl
+          exact setLla_eq hn4 hm4 _ _
+        · have hS := setGua_eq hn2 hm2 h.ip.isGlobalUnicast h.ip
+          simp only [hA, if_false, Bool.false_eq_true] at hS ⊢
+          rw [← hS]
+          exact setLla_eq hn2 hm2 _ _
+
+theorem checkOnlineTransition_tie {s : Sess} (hi : Inv s) (hid : Nat) :
+    Session_checkOnlineTransition s hid =
+      (match hostById s hid with
+       | none => (s, false)
+       | some h => if h.online then (s, false) else (onlineTransition s hid, true)) := by
+  unfold Session_checkOnlineTransition
+  cases e : hostById s hid with
+  | none => rfl
+  | some h => simp only [H_of_some e, onlineTransition_tie hi]
+
 end PV.Lemmas.TablesTieB
